@@ -14,6 +14,19 @@
 //!     `-> ZipResult<R>` functions live in `Rs.W ω R` (outcome + log of what was handed to the sink);
 //!     integer literals get their type from a light inference (casts, field types, callee, return
 //!     type, look-ahead to the first typed use); `while` loops become `Rs.W.whileLoop` with fuel.
+//!   * tier T5 (READ mode): `fn f<T: Read [+ Seek]>(reader: &mut T, …) -> ZipResult<R>` (the type
+//!     parameter may belong to the enclosing `impl<R: Read + Seek>`) lives in the model's own I/O monad
+//!     `ZipVerif.Model.M` (`Basic/RsM.lean`): `reader.read_uNN::<LittleEndian>()?` → `M.readUNN`,
+//!     `read_exact(&mut buf)?` into a `vec![0; n]` → `M.readExact`, `seek(SeekFrom::Start/End/Current)?`
+//!     → `M.seek`, `stream_position()?`, `?` → bind, `return Err(e)` → `M.throw`; a call without `?` is
+//!     `M.attempt` (the `Result` as a value, matched with `Ok/Err(ZipError::V(_))/Err(e) if e.kind() == K`);
+//!     `u64/usize` = `UInt64`, `i64` = `Int64`, all `+ - *` and unary `-` checked (`R.lift`, panic on
+//!     `none`), `checked_*`/`saturating_sub`/`ok_or`/`and_then`; `while a <cmp> b` → `Rs.R.whileLoop`
+//!     with fuel `|a - b| + 2`, body result `Rs.Step` (`break`, `return Ok(..)`); statement-level
+//!     `match`/`if` that assign locals are one bind of the new values.
+//!     `fn f(x: &mut Struct, …) -> ZipResult<R>` (P mode) lives in `Rs.P Struct (R × Struct)`: the
+//!     value of `x` survives an `Err`; `io::Cursor::new(&bytes)` locals with `read_*`/`position`/`seek`.
+//!     Item kinds `errfn` (helper whose body is `Err(ZipError::V(arg))`) and `aconst` (associated constant).
 //! Anything outside the subset makes the *item* untranslated (reported on stdout, emitted as a
 //! comment), never silently approximated.
 use std::collections::{BTreeMap, HashMap, HashSet};
@@ -76,6 +89,11 @@ enum Mode {
     Pure,
     /// `Rs.W ω`: functions returning `ZipResult`, with or without a `writer: &mut T`
     W,
+    /// tier T5, `Model.M`: functions returning `ZipResult` that take a `reader: &mut T`, `T: Read [+ Seek]`
+    R,
+    /// tier T5, `Rs.P σ`: functions returning `ZipResult` that mutate a `x: &mut Struct` parameter (the
+    /// parameter's value survives an `Err`): every failure site carries the current value
+    P,
 }
 
 #[derive(Clone, Debug)]
@@ -108,6 +126,10 @@ struct Registry {
     /// struct → field → Lean type (translatable fields only)
     struct_fields: HashMap<String, HashMap<String, String>>,
     const_ty: HashMap<String, String>,
+    /// helper functions whose whole body is `Err(ZipError::V(arg))`: name → V
+    errfns: HashMap<String, String>,
+    /// associated constants `impl T { const C: Self = …; }`: "T::C" → ()
+    aconsts: HashMap<String, ()>,
 }
 
 struct Tr<'a> {
@@ -145,6 +167,16 @@ struct Tr<'a> {
     n_loops: usize,
     /// locals whose type the light inference could not determine
     untyped: HashSet<String>,
+    /// READ mode: name of the `reader: &mut T` parameter
+    reader: Option<String>,
+    /// P mode: name of the `x: &mut Struct` parameter
+    pstate: Option<String>,
+    /// READ mode, inside a loop body: the loop-carried variables as a Lean term (for `break`)
+    loop_state: Option<String>,
+    /// depth of nested `(do …)` terms that are not in tail position (`return Ok(..)` is not allowed there)
+    nontail_sub: usize,
+    /// the statement about to be translated is already inside its own value block
+    skip_tuple: bool,
 }
 
 fn path_last(p: &Path) -> String {
@@ -170,6 +202,7 @@ fn prim_ty(s: &str) -> Option<&'static str> {
         "u16" => "UInt16",
         "u32" => "UInt32",
         "u64" | "usize" => "UInt64",
+        "i64" => "Int64",
         "bool" => "Bool",
         "char" => "Char",
         _ => return None,
@@ -177,7 +210,7 @@ fn prim_ty(s: &str) -> Option<&'static str> {
 }
 
 fn int_ty(t: &str) -> bool {
-    matches!(t, "UInt8" | "UInt16" | "UInt32" | "UInt64")
+    matches!(t, "UInt8" | "UInt16" | "UInt32" | "UInt64" | "Int64")
 }
 
 fn path_ident(e: &Expr) -> Option<String> {
@@ -228,6 +261,11 @@ impl<'r, 'ast> syn::visit::Visit<'ast> for AssignedVars<'r> {
     fn visit_expr_assign(&mut self, a: &'ast ExprAssign) {
         if let Some(n) = path_ident(&a.left) {
             self.out.push(n);
+        }
+        if let Expr::Field(f) = &*a.left {
+            if let Some(n) = path_ident(&f.base) {
+                self.out.push(n);
+            }
         }
         syn::visit::visit_expr_assign(self, a);
     }
@@ -316,6 +354,51 @@ impl<'ast> syn::visit::Visit<'ast> for UsedIdents {
     }
 }
 
+/// `break`, `continue`, a loop, or a `return` of anything but `Err(..)` / an error helper.
+struct Escapes<'r> {
+    reg: &'r Registry,
+    found: bool,
+}
+impl<'r, 'ast> syn::visit::Visit<'ast> for Escapes<'r> {
+    fn visit_expr(&mut self, e: &'ast Expr) {
+        match e {
+            Expr::Break(_) | Expr::Continue(_) | Expr::While(_) | Expr::Loop(_) | Expr::ForLoop(_) => self.found = true,
+            Expr::Return(r) => {
+                let ok = match r.expr.as_deref() {
+                    Some(Expr::Call(c)) => match &*c.func {
+                        Expr::Path(p) if p.path.segments.len() == 1 => {
+                            let f = path_last(&p.path);
+                            f == "Err" || self.reg.errfns.contains_key(&f)
+                        }
+                        _ => false,
+                    },
+                    _ => false,
+                };
+                if !ok {
+                    self.found = true;
+                }
+            }
+            _ => {}
+        }
+        syn::visit::visit_expr(self, e);
+    }
+}
+
+/// `?`, `&mut`, macros, closures, assignments: anything that is not evidently a pure value.
+struct HasEffect {
+    found: bool,
+}
+impl<'ast> syn::visit::Visit<'ast> for HasEffect {
+    fn visit_expr(&mut self, e: &'ast Expr) {
+        match e {
+            Expr::Try(_) | Expr::Macro(_) | Expr::Closure(_) | Expr::Assign(_) | Expr::MethodCall(_) | Expr::Return(_) | Expr::Break(_) => self.found = true,
+            Expr::Reference(r) if r.mutability.is_some() => self.found = true,
+            _ => {}
+        }
+        syn::visit::visit_expr(self, e);
+    }
+}
+
 /// Is `&mut NAME.as_mut()` passed somewhere (the array is a byte sink)?
 struct UsedAsSink {
     name: String,
@@ -345,6 +428,7 @@ fn write_int_ty(method: &str) -> Option<&'static str> {
 }
 fn read_int_ty(method: &str) -> Option<&'static str> {
     Some(match method {
+        "read_u8" => "UInt8",
         "read_u16" => "UInt16",
         "read_u32" => "UInt32",
         "read_u64" => "UInt64",
@@ -386,11 +470,38 @@ impl<'a> Tr<'a> {
             aux: vec![],
             n_loops: 0,
             untyped: HashSet::new(),
+            reader: None,
+            pstate: None,
+            loop_state: None,
+            nontail_sub: 0,
+            skip_tuple: false,
         }
     }
 
     fn typed(&self) -> bool {
-        self.mode == Mode::W
+        self.mode != Mode::Pure
+    }
+    fn monadic(&self) -> bool {
+        self.mode != Mode::Pure
+    }
+    /// prefix of the monad vocabulary
+    fn mp(&self) -> &'static str {
+        match self.mode {
+            Mode::R => "Rs.R",
+            Mode::P => "Rs.P",
+            _ => "Rs.W",
+        }
+    }
+    /// P mode: the current value of the `&mut` parameter, passed to every failure site
+    fn sfx(&self) -> String {
+        match (&self.mode, &self.pstate) {
+            (Mode::P, Some(p)) => format!(" {p}"),
+            _ => String::new(),
+        }
+    }
+    /// the mode has statement-level `match`, `break`, general `return`
+    fn t5(&self) -> bool {
+        matches!(self.mode, Mode::R | Mode::P)
     }
 
     /// Light type synthesis: the Lean type of a Rust expression when it is evident, else `None`.
@@ -399,7 +510,13 @@ impl<'a> Tr<'a> {
             Expr::Paren(p) => self.type_of(&p.expr),
             Expr::Group(g) => self.type_of(&g.expr),
             Expr::Reference(r) => self.type_of(&r.expr),
-            Expr::Try(t) => self.type_of(&t.expr),
+            Expr::Try(t) => {
+                let ty = self.type_of(&t.expr)?;
+                match ty.strip_prefix("(Except ZErr ").and_then(|x| x.strip_suffix(')')) {
+                    Some(x) => Some(x.to_string()),
+                    None => Some(ty),
+                }
+            }
             Expr::Unary(u) => self.type_of(&u.expr),
             Expr::Lit(l) => match &l.lit {
                 Lit::Int(i) => prim_ty(i.suffix()).map(|s| s.to_string()),
@@ -411,6 +528,24 @@ impl<'a> Tr<'a> {
                 if p.path.segments.len() == 1 {
                     if let Some(t) = self.vars.get(&n) {
                         return Some(t.clone());
+                    }
+                }
+                if p.path.segments.len() >= 2 {
+                    let first = p.path.segments[p.path.segments.len() - 2].ident.to_string();
+                    let first = if first == "Self" { self.self_ty.clone().unwrap_or_default() } else { first };
+                    if let Some(vs) = self.reg.enums.get(&first) {
+                        if vs.iter().any(|(v, p)| *v == n && !*p) {
+                            return Some(format!("Gen.{first}"));
+                        }
+                    }
+                    if self.reg.aconsts.contains_key(&format!("{first}::{n}")) {
+                        return Some(format!("Gen.{first}"));
+                    }
+                }
+                if n == "MAX" && p.path.segments.len() >= 2 {
+                    let first = p.path.segments[p.path.segments.len() - 2].ident.to_string();
+                    if let Some(t) = prim_ty(&first) {
+                        return Some(t.into());
                     }
                 }
                 self.reg.const_ty.get(&n).cloned()
@@ -451,8 +586,12 @@ impl<'a> Tr<'a> {
                 let name = m.method.to_string();
                 match name.as_str() {
                     "len" => Some("UInt64".into()),
-                    "is_ascii" | "is_empty" | "is_some" | "is_none" | "any" | "contains" => Some("Bool".into()),
-                    "iter" | "clone" | "as_bytes" | "into_iter" | "as_slice" | "to_vec" | "as_mut" => self.type_of(&m.receiver),
+                    "is_ascii" | "is_empty" | "is_some" | "is_none" | "any" | "contains" | "is_ok" | "is_err" => Some("Bool".into()),
+                    "iter" | "clone" | "as_bytes" | "into_iter" | "as_slice" | "to_vec" | "as_mut" | "into_owned" | "saturating_sub" | "and_then" => self.type_of(&m.receiver),
+                    "checked_sub" | "checked_add" | "checked_mul" => self.type_of(&m.receiver).filter(|t| int_ty(t)).map(|t| format!("(Option {t})")),
+                    "ok_or" => self.type_of(&m.receiver).and_then(|t| t.strip_prefix("(Option ").and_then(|x| x.strip_suffix(')')).map(|x| x.to_string())),
+                    "from_cp437" => Some("Bytes".into()),
+                    "seek" | "stream_position" | "position" if self.t5() => Some("UInt64".into()),
                     "min" | "max" => self.type_of(&m.receiver).or_else(|| m.args.first().and_then(|a| self.type_of(a))),
                     _ => {
                         if let Some(t) = read_int_ty(&name) {
@@ -465,19 +604,40 @@ impl<'a> Tr<'a> {
             Expr::Call(c) => {
                 if let Expr::Path(p) = &*c.func {
                     let name = path_last(&p.path);
+                    let wrap = |fi: &FnInfo| if matches!(fi.mode, Mode::R | Mode::P) { fi.ret.clone().map(|t| format!("(Except ZErr {t})")) } else { fi.ret.clone() };
                     if p.path.segments.len() == 1 {
                         if let Some(fi) = self.reg.fns.get(&name) {
-                            return fi.ret.clone();
+                            return wrap(fi);
+                        }
+                        if name == "Some" && c.args.len() == 1 {
+                            return self.type_of(&c.args[0]).map(|t| format!("(Option {t})"));
                         }
                     } else {
                         let first = p.path.segments[p.path.segments.len() - 2].ident.to_string();
                         if let Some(mi) = self.reg.methods.get(&format!("{first}::{name}")) {
-                            return mi.fi.ret.clone();
+                            return wrap(&mi.fi);
+                        }
+                        if first == "String" && name == "from_utf8_lossy" {
+                            return Some("Bytes".into());
+                        }
+                        if first == "Cursor" && name == "new" {
+                            return Some("Rs.Cursor".into());
                         }
                     }
                 }
                 None
             }
+            Expr::Tuple(t) if !t.elems.is_empty() => {
+                let parts: Option<Vec<String>> = t.elems.iter().map(|e| self.type_of(e)).collect();
+                parts.map(|p| format!("({})", p.join(" × ")))
+            }
+            Expr::Struct(st) => {
+                let n = path_last(&st.path);
+                let n = if n == "Self" { self.self_ty.clone()? } else { n };
+                if self.reg.structs.contains(&n) { Some(format!("Gen.{n}")) } else { None }
+            }
+            Expr::Macro(m) if path_last(&m.mac.path) == "vec" => Some("Bytes".into()),
+            Expr::Match(m) => m.arms.iter().find_map(|a| self.type_of(&a.body)),
             _ => None,
         }
     }
@@ -553,8 +713,8 @@ impl<'a> Tr<'a> {
     /// Bind the result of a panic-monad (`Option`) computation.
     fn bind_m(&mut self, rhs: String) -> String {
         let t = self.fresh();
-        if self.mode == Mode::W {
-            self.emit(format!("let {t} ← Rs.W.lift ({rhs})"));
+        if self.monadic() {
+            self.emit(format!("let {t} ← {}.lift ({rhs}){}", self.mp(), self.sfx()));
         } else {
             self.emit(format!("let {t} ← {rhs}"));
         }
@@ -614,6 +774,16 @@ impl<'a> Tr<'a> {
                     let a = self.expr(&u.expr)?;
                     Ok(format!("(!{a})"))
                 }
+                UnOp::Neg(_) => {
+                    let t = exp.clone().or_else(|| self.type_of(&u.expr));
+                    if self.typed() && t.as_deref() == Some("Int64") {
+                        self.expect = Some("Int64".into());
+                        let a = self.expr(&u.expr)?;
+                        Ok(self.bind_m(format!("Rs.checkedNeg {a}")))
+                    } else {
+                        Err("unary minus".into())
+                    }
+                }
                 _ => Err("unary minus".into()),
             },
             Expr::Lit(l) => match &l.lit {
@@ -664,6 +834,23 @@ impl<'a> Tr<'a> {
                         return Ok(format!("Gen.{en}.{name}"));
                     }
                 }
+                if self.reg.aconsts.contains_key(&format!("{en}::{name}")) {
+                    if self.failed.contains(&format!("{en}::{name}")) {
+                        return Err(format!("uses the untranslated {en}::{name}"));
+                    }
+                    return Ok(format!("Gen.{en}.{name}"));
+                }
+                if self.typed() {
+                    let s = quote::quote!(#p).to_string().replace(' ', "");
+                    let s = s.trim_start_matches("::").trim_start_matches("std::");
+                    match s {
+                        "u8::MAX" => return Ok("(255 : UInt8)".into()),
+                        "u16::MAX" => return Ok("(65535 : UInt16)".into()),
+                        "u32::MAX" => return Ok("(4294967295 : UInt32)".into()),
+                        "u64::MAX" | "usize::MAX" => return Ok("(18446744073709551615 : UInt64)".into()),
+                        _ => {}
+                    }
+                }
                 Err(format!("unknown path {}", quote::quote!(#p)))
             }
             Expr::Field(f) => {
@@ -692,7 +879,11 @@ impl<'a> Tr<'a> {
                 self.tail = tail;
                 self.if_expr(i)
             }
-            Expr::Match(m) => self.match_expr(m),
+            Expr::Match(m) => {
+                self.expect = exp;
+                self.tail = tail;
+                self.match_expr(m)
+            }
             Expr::Block(b) => {
                 // value block
                 self.expect = exp;
@@ -709,6 +900,22 @@ impl<'a> Tr<'a> {
                 let mut fs = vec![];
                 for f in &s.fields {
                     if let Member::Named(n) = &f.member {
+                        // a field the generated structure does not have (unsupported type): its
+                        // initialiser is dropped with it, provided it evidently has no effect
+                        if self.typed() {
+                            if let Some(m) = self.reg.struct_fields.get(&name) {
+                                if !m.contains_key(&n.to_string()) {
+                                    let mut u = UsedIdents { out: vec![] };
+                                    syn::visit::Visit::visit_expr(&mut u, &f.expr);
+                                    let mut eff = HasEffect { found: false };
+                                    syn::visit::Visit::visit_expr(&mut eff, &f.expr);
+                                    if eff.found || u.out.iter().any(|x| Some(x) == self.reader.as_ref() || Some(x) == self.writer.as_ref() || self.mut_vars.contains(x)) {
+                                        return Err(format!("initialiser of the dropped field `{n}` may have an effect"));
+                                    }
+                                    continue;
+                                }
+                            }
+                        }
                         self.expect = self.reg.struct_fields.get(&name).and_then(|m| m.get(&n.to_string())).cloned();
                     }
                     let v = self.expr(&f.expr)?;
@@ -769,9 +976,29 @@ impl<'a> Tr<'a> {
             }
             Expr::MethodCall(m) => {
                 self.expect = exp;
+                self.tail = tail;
                 self.method_call(m)
             }
+            Expr::Return(r) if self.monadic() => {
+                // `return Err(..)` as the value of a match arm / block: the error propagates through the monad
+                let inner = r.expr.as_deref().ok_or("return without a value")?;
+                match self.err_action(inner)? {
+                    Some(act) => Ok(self.bind_typed(act, exp)),
+                    None => Err("return of something other than Err(..) in expression position".into()),
+                }
+            }
             Expr::Return(_) => Err("return in expression position".into()),
+            Expr::Macro(m) if path_last(&m.mac.path) == "vec" && self.typed() => {
+                // vec![0; n]
+                let rp: ExprRepeat = syn::parse2(proc_macro2::TokenStream::from_iter([proc_macro2::TokenTree::Group(proc_macro2::Group::new(proc_macro2::Delimiter::Bracket, m.mac.tokens.clone()))])).map_err(|_| "vec! other than vec![0; n]".to_string())?;
+                let zero = matches!(&*rp.expr, Expr::Lit(ExprLit { lit: Lit::Int(i), .. }) if i.base10_parse::<u64>().ok() == Some(0));
+                if !zero {
+                    return Err("vec! with a non-zero element".into());
+                }
+                self.expect = Some("UInt64".into());
+                let n = self.expr(&rp.len)?;
+                Ok(format!("(Rs.vecZeros {n})"))
+            }
             Expr::Macro(m) => Err(format!("macro {}", path_last(&m.mac.path))),
             other => Err(format!("unsupported expression at line {}", other.span().start().line)),
         }
@@ -793,7 +1020,10 @@ impl<'a> Tr<'a> {
             let mark = self.lines.len();
             let saved_indent = self.indent;
             self.indent += 2;
-            let r = self.expr(&b.right)?;
+            self.nontail_sub += 1;
+            let r = self.expr(&b.right);
+            self.nontail_sub -= 1;
+            let r = r?;
             self.indent = saved_indent;
             if self.lines.len() == mark {
                 return Ok(match b.op {
@@ -851,11 +1081,18 @@ impl<'a> Tr<'a> {
     }
 
     /// Translate a block used as a value into a parenthesised `(do … pure v)` term bound to a temp.
-    fn sub_do(&mut self, f: impl FnOnce(&mut Self) -> R<String>) -> R<String> {
+    fn sub_do(&mut self, tail: bool, f: impl FnOnce(&mut Self) -> R<String>) -> R<String> {
         let mark = self.lines.len();
         let saved = self.indent;
         self.indent += 2;
-        let v = f(self)?;
+        if !tail {
+            self.nontail_sub += 1;
+        }
+        let v = f(self);
+        if !tail {
+            self.nontail_sub -= 1;
+        }
+        let v = v?;
         self.indent = saved;
         let inner: Vec<String> = self.lines.drain(mark..).collect();
         if inner.is_empty() {
@@ -884,6 +1121,13 @@ impl<'a> Tr<'a> {
                         return self.expr(e);
                     }
                 }
+                // `{ …; return Err(e); }` as a value: the failing action stands for the value
+                if let Stmt::Expr(e @ Expr::Return(_), Some(_)) = s {
+                    if self.t5() {
+                        self.expect = exp;
+                        return self.expr(e);
+                    }
+                }
             }
             let saved_hint = self.hint.take();
             self.rest = b.stmts[i + 1..].to_vec();
@@ -907,7 +1151,7 @@ impl<'a> Tr<'a> {
         let c = self.expr(&i.cond)?;
         let then_b = i.then_branch.clone();
         let (e1, e2) = (exp.clone(), exp.clone());
-        let a = self.sub_do(|s| {
+        let a = self.sub_do(tail, |s| {
             s.expect = e1;
             s.tail = tail;
             s.block_value(&then_b)
@@ -915,7 +1159,7 @@ impl<'a> Tr<'a> {
         let b = match &i.else_branch {
             Some((_, e)) => {
                 let e = (**e).clone();
-                self.sub_do(|s| {
+                self.sub_do(tail, |s| {
                     s.expect = e2;
                     s.tail = tail;
                     match &e {
@@ -980,6 +1224,8 @@ impl<'a> Tr<'a> {
                 let n = id.ident.to_string();
                 if let Some((en, _)) = self.is_variant(&n) {
                     Ok(format!("Gen.{en}.{n}"))
+                } else if n == "None" {
+                    Ok("none".into())
                 } else {
                     Ok(n)
                 }
@@ -999,6 +1245,24 @@ impl<'a> Tr<'a> {
                 if n == "Some" {
                     return Ok(format!("(some {})", inner?.join(" ")));
                 }
+                if self.mode == Mode::R && first.is_empty() && ts.elems.len() == 1 {
+                    if n == "Ok" {
+                        // `Ok(..)`: the value is not bound
+                        return Ok(format!("(Except.ok {})", if matches!(ts.elems[0], Pat::Rest(_)) { "_".to_string() } else { inner?.join(" ") }));
+                    }
+                    if n == "Err" {
+                        return Ok(format!("(Except.error {})", inner?.join(" ")));
+                    }
+                }
+                if self.mode == Mode::R && first == "ZipError" && ts.elems.len() == 1 && matches!(ts.elems[0], Pat::Wild(_) | Pat::Rest(_)) {
+                    match n.as_str() {
+                        "InvalidArchive" => return Ok("ZErr.invalidArchive".into()),
+                        "FileNotFound" => return Ok("ZErr.fileNotFound".into()),
+                        "Io" => return Ok("(ZErr.io _)".into()),
+                        // `UnsupportedArchive(_)` covers two model values (the password-required message is one): not a pattern
+                        _ => return Err(format!("pattern ZipError::{n}")),
+                    }
+                }
                 let en = if first == "Self" { self.self_ty.clone().unwrap_or_default() } else if first.is_empty() {
                     self.is_variant(&n).map(|x| x.0).unwrap_or_default()
                 } else { first };
@@ -1009,18 +1273,76 @@ impl<'a> Tr<'a> {
                 Ok(format!("({})", inner?.join(", ")))
             }
             Pat::Reference(r) => self.pat_lean(&r.pat),
+            Pat::Or(o) => {
+                let inner: R<Vec<String>> = o.cases.iter().map(|e| self.pat_lean(e)).collect();
+                Ok(inner?.join(" | "))
+            }
             Pat::Rest(_) => Ok("..".into()),
             _ => Err("unsupported pattern".into()),
         }
     }
 
-    fn match_expr(&mut self, m: &ExprMatch) -> R<String> {
-        let arms: Vec<&Arm> = m.arms.iter().filter(|a| cfg_on(&a.attrs)).collect();
-        if arms.iter().any(|a| a.guard.is_some()) {
+    /// READ mode: `Err(e) if e.kind() == io::ErrorKind::K` on an `io::Result` → the pattern of that error kind.
+    fn guarded_io_pat(&self, a: &Arm) -> R<String> {
+        let (_, g) = a.guard.as_ref().ok_or("no guard")?;
+        if self.mode != Mode::R {
             return Err("match guard".into());
         }
+        let var = match &a.pat {
+            Pat::TupleStruct(ts) if path_last(&ts.path) == "Err" && ts.elems.len() == 1 => match &ts.elems[0] {
+                Pat::Ident(id) => id.ident.to_string(),
+                _ => return Err("match guard".into()),
+            },
+            _ => return Err("match guard".into()),
+        };
+        // the arm must not use the error value
+        let mut u = UsedIdents { out: vec![] };
+        syn::visit::Visit::visit_expr(&mut u, &a.body);
+        if u.out.contains(&var) {
+            return Err("guarded arm that uses the error value".into());
+        }
+        if let Expr::Binary(b) = &**g {
+            if matches!(b.op, BinOp::Eq(_)) {
+                for (l, r) in [(&*b.left, &*b.right), (&*b.right, &*b.left)] {
+                    if let (Expr::MethodCall(mc), Expr::Path(kp)) = (l, r) {
+                        if mc.method == "kind" && mc.args.is_empty() && path_ident(&mc.receiver).as_deref() == Some(&var) {
+                            let ks: Vec<String> = kp.path.segments.iter().map(|s| s.ident.to_string()).collect();
+                            if ks.len() >= 2 && ks[ks.len() - 2] == "ErrorKind" {
+                                let k = match ks[ks.len() - 1].as_str() {
+                                    "InvalidInput" => "invalidInput",
+                                    "UnexpectedEof" => "unexpectedEof",
+                                    "Other" => "other",
+                                    "InvalidData" => "invalidData",
+                                    "WriteZero" => "writeZero",
+                                    "BrokenPipe" => "brokenPipe",
+                                    other => return Err(format!("io::ErrorKind::{other}")),
+                                };
+                                return Ok(format!("(Except.error (ZErr.io IoKind.{k}))"));
+                            }
+                        }
+                    }
+                }
+            }
+        }
+        Err("match guard".into())
+    }
+
+    fn match_expr(&mut self, m: &ExprMatch) -> R<String> {
+        let arms: Vec<&Arm> = m.arms.iter().filter(|a| cfg_on(&a.attrs)).collect();
+        for a in &arms {
+            if a.guard.is_some() {
+                self.guarded_io_pat(a)?;
+            }
+        }
         let integer = arms.iter().any(|a| matches!(a.pat, Pat::Lit(PatLit { lit: Lit::Int(_), .. }) | Pat::Range(_)));
-        let hint = self.hint.take();
+        let exp = self.expect.take();
+        let tail = std::mem::take(&mut self.tail);
+        let mut hint = self.hint.take();
+        if self.typed() && hint.is_none() {
+            hint = exp.clone().or_else(|| self.type_of(&Expr::Match(m.clone())));
+        }
+        let exp = exp.or_else(|| hint.clone());
+        let scrut_ty = self.type_of(&m.expr);
         let scrut = self.expr(&m.expr)?;
         if integer {
             // a nested do-block of statement-level `if c then return v`, last arm as the default
@@ -1066,9 +1388,24 @@ impl<'a> Tr<'a> {
         let mut s = format!("(match {scrut} with");
         let pad = "  ".repeat(self.indent + 1);
         for a in &arms {
-            let p = self.pat_lean(&a.pat)?;
+            let p = if a.guard.is_some() { self.guarded_io_pat(a)? } else { self.pat_lean(&a.pat)? };
             let body = (*a.body).clone();
-            let b = self.sub_do(|s| s.expr(&body))?;
+            let saved_vars = self.vars.clone();
+            let saved_mut = self.mut_vars.clone();
+            let saved_untyped = self.untyped.clone();
+            if self.typed() && a.guard.is_none() {
+                self.bind_pat_vars(&a.pat, scrut_ty.as_deref());
+            }
+            let e = exp.clone();
+            let b = self.sub_do(tail, |s| {
+                s.expect = e;
+                s.tail = tail;
+                s.expr(&body)
+            });
+            self.vars = saved_vars;
+            self.mut_vars = saved_mut;
+            self.untyped = saved_untyped;
+            let b = b?;
             write!(s, "\n{pad}| {p} => {b}").unwrap();
         }
         s.push(')');
@@ -1085,16 +1422,67 @@ impl<'a> Tr<'a> {
         let tail = std::mem::take(&mut self.tail);
         let first = if p.path.segments.len() >= 2 { p.path.segments[p.path.segments.len() - 2].ident.to_string() } else { String::new() };
         // the function's own result in W mode
-        if self.mode == Mode::W && tail && first.is_empty() && c.args.len() == 1 {
+        if self.monadic() && tail && first.is_empty() && c.args.len() == 1 {
             if name == "Ok" {
                 self.expect = self.ret_ty.clone();
                 return self.expr(&c.args[0]);
             }
-            if name == "Err" {
-                let e = self.expr(&c.args[0])?;
+            if name == "Err" || self.reg.errfns.contains_key(&name) {
+                let act = self.err_action(&Expr::Call(c.clone()))?.ok_or("unsupported Err(..)")?;
                 let ty = self.ret_ty.clone();
-                return Ok(self.bind_w(format!("Rs.W.err {e}"), ty));
+                return Ok(self.bind_w(act, ty));
             }
+        }
+        if first.is_empty() && self.reg.errfns.contains_key(&name) {
+            return Err(format!("{name}(..) outside result position"));
+        }
+        // READ mode: a translated function that mutates a `&mut` local (P mode), called without `?`:
+        // the local gets its final value whatever the outcome, the `Result` is a value
+        if self.mode == Mode::R && !tail {
+            let key = if first.is_empty() { name.clone() } else { format!("{first}::{name}") };
+            let fi = if first.is_empty() { self.reg.fns.get(&name).cloned() } else { self.reg.methods.get(&key).filter(|m| !m.has_self).map(|m| m.fi.clone()) };
+            if let Some(fi) = fi {
+                if fi.mode == Mode::P {
+                    if self.failed.contains(&key) {
+                        return Err(format!("calls the untranslated {key}"));
+                    }
+                    let mut args = vec![];
+                    let mut target: Option<String> = None;
+                    for (k, a) in c.args.iter().enumerate() {
+                        if Some(k) == fi.writer_idx {
+                            if let Expr::Reference(r) = a {
+                                if r.mutability.is_some() && matches!(&*r.expr, Expr::Path(_)) {
+                                    if let Some(v) = path_ident(&r.expr) {
+                                        if self.mut_vars.contains(&v) {
+                                            args.push(v.clone());
+                                            target = Some(v);
+                                            continue;
+                                        }
+                                    }
+                                }
+                            }
+                            return Err(format!("`&mut` argument of {key} is not a local `mut` variable"));
+                        }
+                        args.push(self.expr(a)?);
+                    }
+                    let target = target.ok_or("missing `&mut` argument")?;
+                    let lean = if first.is_empty() { format!("Gen.{name}") } else { format!("Gen.{first}.{name}") };
+                    let t1 = self.fresh();
+                    let t2 = self.fresh();
+                    self.emit(format!("let ({t1}, {t2}) ← Rs.R.runP ({lean} {})", args.join(" ")));
+                    self.emit(format!("{target} := {t2}"));
+                    return Ok(t1);
+                }
+            }
+        }
+        // READ mode: a translated READ-mode function; in result position its outcome is the
+        // function's own, elsewhere (no `?`) the `Result` is a value
+        if let Some((act, ty)) = self.r_callee(c)? {
+            if tail {
+                return Ok(self.bind_typed(act, ty));
+            }
+            let ty = ty.map(|t| format!("(Except ZErr {t})"));
+            return Ok(self.bind_typed(format!("Model.M.attempt ({act})"), ty));
         }
         // `ZipError` values: messages are dropped
         if first == "ZipError" {
@@ -1130,7 +1518,7 @@ impl<'a> Tr<'a> {
         // calls of translated functions: argument types are unknown here, W-mode callees need `?`
         if first.is_empty() {
             if let Some(fi) = self.reg.fns.get(&name) {
-                if fi.mode == Mode::W {
+                if fi.mode != Mode::Pure {
                     return Err(format!("call of {name} without `?`"));
                 }
             }
@@ -1144,6 +1532,8 @@ impl<'a> Tr<'a> {
             (_, "Ok") => return Ok(format!("(Except.ok {})", args[0])),
             (_, "Err") => return Ok(format!("(Except.error {})", args[0])),
             ("char", "from_u32") => return Ok(format!("(Rs.charFromU32 {})", args[0])),
+            ("String", "from_utf8_lossy") if self.mode == Mode::R && args.len() == 1 => return Ok(format!("(Rs.fromUtf8Lossy {})", args[0])),
+            ("Cursor", "new") if self.mode == Mode::P && args.len() == 1 && c.args.first().and_then(|a| self.type_of(a)).as_deref() == Some("Bytes") => return Ok(format!("(Rs.Cursor.new {})", args[0])),
             _ => {}
         }
         // enum variant constructor with payload
@@ -1161,7 +1551,7 @@ impl<'a> Tr<'a> {
         // associated function Type::f(args)
         let key = format!("{en}::{name}");
         if let Some(mi) = self.reg.methods.get(&key) {
-            if mi.fi.mode == Mode::W {
+            if mi.fi.mode != Mode::Pure {
                 return Err(format!("call of {key} without `?`"));
             }
             if self.failed.contains(&key) {
@@ -1181,6 +1571,56 @@ impl<'a> Tr<'a> {
 
     fn method_call(&mut self, m: &ExprMethodCall) -> R<String> {
         let name = m.method.to_string();
+        let tail = std::mem::take(&mut self.tail);
+        // result position: `r.map(|x| v)` on the outcome of a translated function
+        if tail && self.monadic() && name == "map" && m.args.len() == 1 {
+            if let Expr::Closure(cl) = &m.args[0] {
+                if cl.inputs.len() == 1 {
+                    let ty = self.type_of(&Expr::Try(ExprTry { attrs: vec![], expr: m.receiver.clone(), question_token: Default::default() }));
+                    self.tail = true;
+                    let x = self.expr(&m.receiver)?;
+                    let pat = self.pat_lean(&cl.inputs[0])?;
+                    self.emit(format!("let {pat} := {x}"));
+                    self.bind_pat_vars(&cl.inputs[0], ty.as_deref());
+                    self.expect = self.ret_ty.clone();
+                    return self.expr(&cl.body);
+                }
+            }
+            return Err("unsupported `.map` in result position".into());
+        }
+        // READ mode: `reader.op(..)` without `?`: the `io::Result` as a value
+        if let Some((act, ty, assign)) = self.reader_op(m)? {
+            if assign.is_some() {
+                return Err("read_exact without `?`".into());
+            }
+            return Ok(self.bind_typed(format!("Model.M.attempt ({act})"), Some(format!("(Except ZErr {ty})"))));
+        }
+        // opt.and_then(|x| pure-option-expression)
+        if name == "and_then" && m.args.len() == 1 {
+            if let Expr::Closure(cl) = &m.args[0] {
+                if cl.inputs.len() == 1 {
+                    if let Pat::Ident(id) = &cl.inputs[0] {
+                        let var = id.ident.to_string();
+                        let rt = self.type_of(&m.receiver);
+                        let inner = rt.as_deref().and_then(|t| t.strip_prefix("(Option ")).and_then(|x| x.strip_suffix(')')).map(|x| x.to_string()).ok_or("and_then on a value of unknown type")?;
+                        let recv = self.expr(&m.receiver)?;
+                        let mark = self.lines.len();
+                        let saved = self.vars.insert(var.clone(), inner);
+                        let body = self.expr(&cl.body);
+                        match saved {
+                            Some(t) => { self.vars.insert(var.clone(), t); }
+                            None => { self.vars.remove(&var); }
+                        }
+                        let body = body?;
+                        if self.lines.len() != mark {
+                            return Err("and_then closure with effects".into());
+                        }
+                        return Ok(format!("(Option.bind {recv} (fun {var} => {body}))"));
+                    }
+                }
+            }
+            return Err("unsupported `.and_then`".into());
+        }
         // (a..=b).contains(&x)
         if name == "contains" {
             if let Expr::Paren(p) = &*m.receiver {
@@ -1256,18 +1696,32 @@ impl<'a> Tr<'a> {
             return Err(format!("writer.{name}() without `?`"));
         }
         let rt = self.type_of(&m.receiver);
-        if matches!(name.as_str(), "min" | "max") {
+        let same_ty = matches!(name.as_str(), "min" | "max" | "checked_sub" | "checked_add" | "checked_mul" | "saturating_sub");
+        if same_ty {
             self.expect = rt.clone().or(exp.clone());
         }
         let recv = self.expr(&m.receiver)?;
         let mut args = vec![];
         for a in &m.args {
-            if matches!(name.as_str(), "min" | "max") {
+            if same_ty {
                 self.expect = rt.clone().or(exp.clone());
             }
             args.push(self.expr(a)?);
         }
+        if self.typed() && args.len() == 1 && rt.as_deref().map(int_ty).unwrap_or(false) {
+            match name.as_str() {
+                "checked_add" => return Ok(format!("(Rs.Arith.add {recv} {})", args[0])),
+                "checked_sub" => return Ok(format!("(Rs.Arith.sub {recv} {})", args[0])),
+                "checked_mul" => return Ok(format!("(Rs.Arith.mul {recv} {})", args[0])),
+                "saturating_sub" if rt.as_deref() != Some("Int64") => return Ok(format!("(Rs.saturatingSub {recv} {})", args[0])),
+                _ => {}
+            }
+        }
         match name.as_str() {
+            "position" if args.is_empty() && rt.as_deref() == Some("Rs.Cursor") => return Ok(format!("{recv}.pos")),
+            "into_owned" if self.mode == Mode::R => return Ok(recv),
+            "from_cp437" if self.mode == Mode::R && args.is_empty() => return Ok(format!("(Rs.fromCp437 {recv})")),
+            "is_ok" if self.mode == Mode::R && args.is_empty() => return Ok(format!("(Except.isOk {recv})")),
             "iter" | "clone" | "as_bytes" | "into_iter" | "as_slice" | "to_vec" => return Ok(recv),
             "len" => return Ok(format!("(Rs.len {recv})")),
             "is_empty" if rt.as_deref() == Some("Bytes") => return Ok(format!("(Rs.isEmpty {recv})")),
@@ -1285,7 +1739,7 @@ impl<'a> Tr<'a> {
         // method of a registered type, called on `self` or `self.field`
         let owner = self.method_owner(&m.receiver, &name);
         if let Some((ty, info)) = owner {
-            if info.fi.mode == Mode::W {
+            if info.fi.mode != Mode::Pure {
                 return Err(format!("call of {ty}::{name} without `?`"));
             }
             if self.failed.contains(&format!("{ty}::{name}")) {
@@ -1297,7 +1751,7 @@ impl<'a> Tr<'a> {
                 if !recv.chars().all(|c| c.is_alphanumeric() || c == '_') {
                     return Err(format!("&mut self method {name} on a non-variable receiver"));
                 }
-                let (lo, lc) = if self.mode == Mode::W { ("Rs.W.lift (", ")") } else { ("", "") };
+                let (lo, lc) = if self.monadic() { (format!("{}.lift (", self.mp()), ")") } else { (String::new(), "") };
                 if info.unit_ret {
                     self.emit(format!("{recv} ← {lo}Gen.{ty}.{name} {recv}{a}{lc}"));
                     return Ok("()".into());
@@ -1316,7 +1770,7 @@ impl<'a> Tr<'a> {
     /// `inner?` in a W-mode function.
     fn try_expr(&mut self, inner: &Expr) -> R<String> {
         let exp = self.expect.take();
-        if self.mode != Mode::W {
+        if !self.monadic() {
             return Err("`?` outside a ZipResult function".into());
         }
         let inner = match inner {
@@ -1327,6 +1781,58 @@ impl<'a> Tr<'a> {
             Expr::MethodCall(m) => {
                 let name = m.method.to_string();
                 let recv_id = path_ident(&m.receiver);
+                // READ mode: reader.read_uNN::<LittleEndian>()? / read_exact(&mut buf)? / seek(..)? / stream_position()?
+                if let Some((act, ty, assign)) = self.reader_op(m)? {
+                    return Ok(match assign {
+                        Some(v) => {
+                            self.emit(format!("{v} ← {act}"));
+                            "()".into()
+                        }
+                        None => self.bind_typed(act, Some(ty)),
+                    });
+                }
+                // P mode: reads / relative seek on a local `io::Cursor` over a byte vector
+                if self.mode == Mode::P && matches!(&*m.receiver, Expr::Path(_)) {
+                    if let Some(v) = recv_id.clone() {
+                        if self.vars.get(&v).map(|s| s.as_str()) == Some("Rs.Cursor") && self.mut_vars.contains(&v) {
+                            let op: Option<String> = if let Some(_) = read_int_ty(&name) {
+                                if name == "read_u8" {
+                                    if m.turbofish.is_some() || !m.args.is_empty() {
+                                        return Err("read_u8 with arguments".into());
+                                    }
+                                } else if !little_endian(m) || !m.args.is_empty() {
+                                    return Err(format!("{name} without ::<LittleEndian>"));
+                                }
+                                Some(format!("Rs.Cursor.{name} {v}"))
+                            } else if name == "seek" && m.args.len() == 1 {
+                                let sf = self.seek_from(&m.args[0])?;
+                                match sf.strip_prefix("(Model.SeekFrom.current (Int64.toInt ").and_then(|x| x.strip_suffix("))")) {
+                                    Some(off) => Some(format!("Rs.Cursor.seek_current {v} {off}")),
+                                    None => return Err("cursor seek other than SeekFrom::Current".into()),
+                                }
+                            } else {
+                                None
+                            };
+                            let op = op.ok_or(format!("cursor.{name}()"))?;
+                            let a = self.fresh();
+                            let b = self.fresh();
+                            self.emit(format!("let ({a}, {b}) ← Rs.P.ofExcept ({op}){}", self.sfx()));
+                            self.emit(format!("{v} := {b}"));
+                            return Ok(a);
+                        }
+                    }
+                }
+                // READ mode: opt.ok_or(err)?
+                if self.mode == Mode::R && name == "ok_or" && m.args.len() == 1 {
+                    let ty = self.type_of(&Expr::MethodCall(m.clone())).or(exp.clone());
+                    let recv = self.expr(&m.receiver)?;
+                    let mark = self.lines.len();
+                    let e = self.expr(&m.args[0])?;
+                    if self.lines.len() != mark {
+                        return Err("ok_or argument with effects".into());
+                    }
+                    return Ok(self.bind_typed(format!("Rs.R.ok_or {recv} {e}"), ty));
+                }
                 // writer.write_uNN::<LittleEndian>(v)? / writer.write_all(bs)? / writer.seek(SeekFrom::Start(p))?
                 if self.writer.is_some() && recv_id == self.writer && matches!(&*m.receiver, Expr::Path(_)) {
                     if let Some(t) = write_int_ty(&name) {
@@ -1398,14 +1904,17 @@ impl<'a> Tr<'a> {
                 Err(format!("`?` on .{name}()"))
             }
             Expr::Call(c) => {
+                if let Some((act, ty)) = self.r_callee(c)? {
+                    return Ok(self.bind_typed(act, ty));
+                }
                 let p = match &*c.func {
                     Expr::Path(p) if p.path.segments.len() == 1 => p,
                     _ => return Err("`?` on a call of a non-local function".into()),
                 };
                 let name = path_last(&p.path);
                 let fi = self.reg.fns.get(&name).cloned().ok_or(format!("`?` on the unknown function {name}"))?;
-                if fi.mode != Mode::W {
-                    return Err(format!("`?` on {name}, which does not return ZipResult"));
+                if fi.mode != Mode::W || self.mode != Mode::W {
+                    return Err(format!("`?` on {name}, which is not a writer-mode ZipResult function called from one"));
                 }
                 if self.failed.contains(&name) {
                     return Err(format!("calls the untranslated {name}"));
@@ -1455,6 +1964,221 @@ impl<'a> Tr<'a> {
         }
     }
 
+
+    /// `Err(e)` / `error_helper("..")` as a monadic action that fails; `None` for anything else.
+    fn err_action(&mut self, inner: &Expr) -> R<Option<String>> {
+        let c = match inner {
+            Expr::Call(c) => c,
+            Expr::Paren(p) => return self.err_action(&p.expr),
+            _ => return Ok(None),
+        };
+        let p = match &*c.func {
+            Expr::Path(p) if p.path.segments.len() == 1 => p,
+            _ => return Ok(None),
+        };
+        let f = path_last(&p.path);
+        if f == "Err" && c.args.len() == 1 {
+            // `e` / `e.into()` with `e` an error value bound by a pattern (an `io::Error` is a `ZipError::Io`)
+            let arg = match &c.args[0] {
+                Expr::MethodCall(mc) if mc.method == "into" && mc.args.is_empty() && matches!(&*mc.receiver, Expr::Path(_)) => &*mc.receiver,
+                other => other,
+            };
+            if let (Some(v), Expr::Path(_)) = (path_ident(arg), arg) {
+                if self.vars.get(&v).map(|s| s.as_str()) == Some("ZErr") {
+                    return Ok(Some(format!("Model.M.throw {v}")));
+                }
+            }
+            let mark = self.lines.len();
+            let e = self.expr(&c.args[0])?;
+            if self.lines.len() != mark {
+                return Err("error value with effects".into());
+            }
+            return Ok(Some(format!("{}.err {e}{}", self.mp(), self.sfx())));
+        }
+        if self.reg.errfns.contains_key(&f) {
+            if self.failed.contains(&f) {
+                return Err(format!("calls the untranslated {f}"));
+            }
+            return Ok(Some(format!("{}.err Gen.{f}{}", self.mp(), self.sfx())));
+        }
+        Ok(None)
+    }
+
+    /// `io::SeekFrom::X(v)` as a `Model.SeekFrom` term.
+    fn seek_from(&mut self, a: &Expr) -> R<String> {
+        if let Expr::Call(sc) = a {
+            if let Expr::Path(sp) = &*sc.func {
+                let segs: Vec<String> = sp.path.segments.iter().map(|s| s.ident.to_string()).collect();
+                if segs.len() >= 2 && segs[segs.len() - 2] == "SeekFrom" && sc.args.len() == 1 {
+                    match segs[segs.len() - 1].as_str() {
+                        "Start" => {
+                            self.expect = Some("UInt64".into());
+                            let v = self.expr(&sc.args[0])?;
+                            return Ok(format!("(Model.SeekFrom.start (UInt64.toNat {v}))"));
+                        }
+                        "End" => {
+                            self.expect = Some("Int64".into());
+                            let v = self.expr(&sc.args[0])?;
+                            return Ok(format!("(Model.SeekFrom.endOff (Int64.toInt {v}))"));
+                        }
+                        "Current" => {
+                            self.expect = Some("Int64".into());
+                            let v = self.expr(&sc.args[0])?;
+                            return Ok(format!("(Model.SeekFrom.current (Int64.toInt {v}))"));
+                        }
+                        _ => {}
+                    }
+                }
+            }
+        }
+        Err("seek argument other than SeekFrom::Start/End/Current(..)".into())
+    }
+
+    /// READ mode: `reader.op(..)` on the function's reader as an `M` action:
+    /// (action, Lean type of its value, local buffer the value is stored into).
+    fn reader_op(&mut self, m: &ExprMethodCall) -> R<Option<(String, String, Option<String>)>> {
+        if self.mode != Mode::R || self.reader.is_none() || path_ident(&m.receiver) != self.reader || !matches!(&*m.receiver, Expr::Path(_)) {
+            return Ok(None);
+        }
+        let name = m.method.to_string();
+        if let Some(t) = read_int_ty(&name) {
+            if name == "read_u8" {
+                if m.turbofish.is_some() || !m.args.is_empty() {
+                    return Err("read_u8 with arguments".into());
+                }
+                return Ok(Some(("Model.M.readU8".into(), t.into(), None)));
+            }
+            if !little_endian(m) || !m.args.is_empty() {
+                return Err(format!("{name} without ::<LittleEndian>"));
+            }
+            let f = match name.as_str() {
+                "read_u16" => "readU16",
+                "read_u32" => "readU32",
+                _ => "readU64",
+            };
+            return Ok(Some((format!("Model.M.{f}"), t.into(), None)));
+        }
+        match name.as_str() {
+            "read_exact" if m.args.len() == 1 => {
+                if let Expr::Reference(r) = &m.args[0] {
+                    if r.mutability.is_some() {
+                        if let Expr::Path(_) = &*r.expr {
+                            if let Some(v) = path_ident(&r.expr) {
+                                if self.vars.get(&v).map(|s| s.as_str()) == Some("Bytes") && self.mut_vars.contains(&v) {
+                                    return Ok(Some((format!("Rs.R.read_exact {v}"), "Bytes".into(), Some(v))));
+                                }
+                            }
+                        }
+                    }
+                }
+                Err("read_exact into something that is not a local `mut` byte vector".into())
+            }
+            "seek" if m.args.len() == 1 => {
+                if !self.seekable {
+                    return Err("seek on a reader that is not Seek".into());
+                }
+                let s = self.seek_from(&m.args[0])?;
+                Ok(Some((format!("Rs.R.seek {s}"), "UInt64".into(), None)))
+            }
+            "stream_position" if m.args.is_empty() => {
+                if !self.seekable {
+                    return Err("stream_position on a reader that is not Seek".into());
+                }
+                Ok(Some(("Rs.R.stream_position".into(), "UInt64".into(), None)))
+            }
+            _ => Err(format!("reader.{name}()")),
+        }
+    }
+
+    /// READ mode: a call of a translated READ-mode function as an `M` action with the Lean type of its value.
+    fn r_callee(&mut self, c: &ExprCall) -> R<Option<(String, Option<String>)>> {
+        if self.mode != Mode::R {
+            return Ok(None);
+        }
+        let p = match &*c.func {
+            Expr::Path(p) => p,
+            _ => return Ok(None),
+        };
+        let name = path_last(&p.path);
+        let (key, lean, fi) = if p.path.segments.len() == 1 {
+            match self.reg.fns.get(&name) {
+                Some(fi) => (name.clone(), format!("Gen.{name}"), fi.clone()),
+                None => return Ok(None),
+            }
+        } else {
+            let first = p.path.segments[p.path.segments.len() - 2].ident.to_string();
+            let first = if first == "Self" { self.self_ty.clone().unwrap_or_default() } else { first };
+            let key = format!("{first}::{name}");
+            match self.reg.methods.get(&key) {
+                Some(mi) if !mi.has_self => (key, format!("Gen.{first}.{name}"), mi.fi.clone()),
+                _ => return Ok(None),
+            }
+        };
+        if fi.mode != Mode::R {
+            return Ok(None);
+        }
+        if self.failed.contains(&key) {
+            return Err(format!("calls the untranslated {key}"));
+        }
+        let mut args = vec![];
+        for (k, a) in c.args.iter().enumerate() {
+            if Some(k) == fi.writer_idx {
+                if self.reader.is_none() || path_ident(a) != self.reader {
+                    return Err(format!("reader argument of {key}"));
+                }
+                if fi.seek && !self.seekable {
+                    return Err(format!("{key} needs a Seek reader"));
+                }
+                continue;
+            }
+            args.push(self.expr(a)?);
+        }
+        let a = if args.is_empty() { String::new() } else { format!(" {}", args.join(" ")) };
+        Ok(Some((format!("{lean}{a}"), fi.ret.clone())))
+    }
+
+    /// Record the types of the variables a pattern binds, given the type of the matched value.
+    fn bind_pat_vars(&mut self, p: &Pat, ty: Option<&str>) {
+        match p {
+            Pat::Ident(id) => {
+                let n = id.ident.to_string();
+                if n == "None" || self.is_variant(&n).is_some() {
+                    return;
+                }
+                match ty {
+                    Some(t) => {
+                        self.untyped.remove(&n);
+                        self.vars.insert(n.clone(), t.to_string());
+                    }
+                    None => {
+                        self.vars.remove(&n);
+                        self.untyped.insert(n.clone());
+                    }
+                }
+                self.mut_vars.remove(&n);
+            }
+            Pat::Reference(r) => self.bind_pat_vars(&r.pat, ty),
+            Pat::TupleStruct(ts) if ts.elems.len() == 1 => {
+                let n = path_last(&ts.path);
+                let inner: Option<String> = match n.as_str() {
+                    "Some" => ty.and_then(|t| t.strip_prefix("(Option ")).and_then(|x| x.strip_suffix(')')).map(|x| x.to_string()),
+                    "Ok" => ty.and_then(|t| t.strip_prefix("(Except ZErr ")).and_then(|x| x.strip_suffix(')')).map(|x| x.to_string()),
+                    "Err" => Some("ZErr".into()),
+                    _ => None,
+                };
+                self.bind_pat_vars(&ts.elems[0], inner.as_deref());
+            }
+            Pat::Tuple(t) => {
+                let parts = ty.map(split_prod).unwrap_or_default();
+                for (k, e) in t.elems.iter().enumerate() {
+                    let pt = if parts.len() == t.elems.len() { Some(parts[k].clone()) } else { None };
+                    self.bind_pat_vars(e, pt.as_deref());
+                }
+            }
+            _ => {}
+        }
+    }
+
     fn method_owner(&self, recv: &Expr, name: &str) -> Option<(String, MethodInfo)> {
         // Resolve by unique method name among registered methods, preferring the current impl type.
         if let Some(st) = &self.self_ty {
@@ -1478,6 +2202,30 @@ impl<'a> Tr<'a> {
         match s {
             Stmt::Local(l) => {
                 if !cfg_on(&l.attrs) {
+                    return Ok(());
+                }
+                if let Pat::Tuple(tp) = &l.pat {
+                    // let (a, b) = value;
+                    if !self.typed() {
+                        return Err("let pattern".into());
+                    }
+                    let init = l.init.as_ref().ok_or("let without initialiser")?;
+                    if init.diverge.is_some() {
+                        return Err("let-else".into());
+                    }
+                    for e in &tp.elems {
+                        match e {
+                            Pat::Ident(id) if id.mutability.is_none() && id.by_ref.is_none() => {}
+                            Pat::Wild(_) => {}
+                            _ => return Err("let pattern".into()),
+                        }
+                    }
+                    let ty = self.type_of(&init.expr);
+                    self.expect = ty.clone();
+                    let v = self.expr(&init.expr)?;
+                    let pat = self.pat_lean(&l.pat)?;
+                    self.emit(format!("let {pat} := {v}"));
+                    self.bind_pat_vars(&l.pat, ty.as_deref());
                     return Ok(());
                 }
                 let (name, mutable, ty) = match &l.pat {
@@ -1582,7 +2330,8 @@ impl<'a> Tr<'a> {
                     return Ok(());
                 }
                 let t = self.ty(&c.ty)?;
-                let v = const_expr(self.reg, &c.expr)?;
+                let locals: HashSet<String> = self.vars.keys().filter(|k| !self.mut_vars.contains(*k)).cloned().collect();
+                let v = const_expr_l(self.reg, &locals, &c.expr)?;
                 let name = c.ident.to_string();
                 self.emit(format!("let {name} : {t} := {v}"));
                 self.vars.insert(name.clone(), t);
@@ -1595,11 +2344,92 @@ impl<'a> Tr<'a> {
         }
     }
 
+    /// T5 modes: the local `mut` variables a statement-level `if` / `match` assigns, when the
+    /// statement can be rendered as one bind of their new values (no `break`, no successful `return`,
+    /// no loop inside).
+    fn tuple_vars(&self, e: &Expr) -> Option<Vec<String>> {
+        let mut esc = Escapes { reg: self.reg, found: false };
+        syn::visit::Visit::visit_expr(&mut esc, e);
+        if esc.found {
+            return None;
+        }
+        let mut av = AssignedVars { reg: self.reg, out: vec![], declared: vec![] };
+        syn::visit::Visit::visit_expr(&mut av, e);
+        let mut vars: Vec<String> = vec![];
+        for v in &av.out {
+            if Some(v) == self.reader.as_ref() || Some(v) == self.writer.as_ref() {
+                continue;
+            }
+            if av.declared.contains(v) {
+                if self.vars.contains_key(v) || self.untyped.contains(v) {
+                    return None;
+                }
+                continue;
+            }
+            if !self.mut_vars.contains(v) || !self.vars.contains_key(v) {
+                return None;
+            }
+            if !vars.contains(v) {
+                vars.push(v.clone());
+            }
+        }
+        if vars.is_empty() { None } else { Some(vars) }
+    }
+
     fn stmt_expr(&mut self, e: &Expr) -> R<()> {
+        let skip = std::mem::take(&mut self.skip_tuple);
+        if self.t5() && !skip && matches!(e, Expr::If(_) | Expr::Match(_)) {
+            if let Some(vars) = self.tuple_vars(e) {
+                // one bind of the new values of the assigned variables
+                let tys: Vec<String> = vars.iter().map(|v| self.vars.get(v).cloned().unwrap()).collect();
+                let (tuple, ty) = if vars.len() == 1 { (vars[0].clone(), tys[0].clone()) } else { (format!("({})", vars.join(", ")), format!("({})", tys.join(" × "))) };
+                let saved_vars = self.vars.clone();
+                let saved_mut = self.mut_vars.clone();
+                let saved_untyped = self.untyped.clone();
+                let outer_rest = std::mem::take(&mut self.rest);
+                let vs = vars.clone();
+                let rhs = self.sub_do(false, |s| {
+                    for v in &vs {
+                        s.emit(format!("let mut {v} := {v}"));
+                    }
+                    s.skip_tuple = true;
+                    s.stmt_expr(e)?;
+                    Ok(tuple)
+                });
+                self.rest = outer_rest;
+                self.vars = saved_vars;
+                self.mut_vars = saved_mut;
+                self.untyped = saved_untyped;
+                let rhs = rhs?;
+                let t = self.bind_typed(rhs, Some(ty));
+                if vars.len() == 1 {
+                    self.emit(format!("{} := {t}", vars[0]));
+                } else {
+                    for (k, v) in vars.iter().enumerate() {
+                        let mut proj = String::new();
+                        for _ in 0..k { proj += ".2"; }
+                        if k + 1 < vars.len() { proj += ".1"; }
+                        self.emit(format!("{v} := {t}{proj}"));
+                    }
+                }
+                return Ok(());
+            }
+        }
         match e {
+            Expr::Assign(a) if self.typed() && matches!(&*a.right, Expr::Match(m) if m.arms.iter().any(|arm| diverges(&arm.body))) => {
+                if let Expr::Match(m) = &*a.right {
+                    return self.stmt_match(Some(&a.left), m);
+                }
+                unreachable!()
+            }
             Expr::Assign(a) => {
                 self.expect = self.type_of(&a.left);
-                let v = self.expr(&a.right)?;
+                if self.t5() {
+                    self.hint = self.expect.clone();
+                }
+                let v = self.expr(&a.right);
+                self.hint = None;
+                let v = v?;
                 self.assign(&a.left, v)
             }
             Expr::Binary(b) if is_assign_op(&b.op) => {
@@ -1618,6 +2448,43 @@ impl<'a> Tr<'a> {
                     _ => return Err("compound assignment".into()),
                 };
                 self.assign(&b.left, v)
+            }
+            Expr::Match(m) if self.t5() => self.stmt_match(None, m),
+            Expr::Break(b) if self.t5() && self.in_loop > 0 => {
+                if b.label.is_some() || b.expr.is_some() {
+                    return Err("labelled break / break with a value".into());
+                }
+                if self.nontail_sub > 0 {
+                    return Err("break inside a nested value block".into());
+                }
+                let st = self.loop_state.clone().ok_or("break outside a loop")?;
+                self.emit(format!("return Rs.Step.brk {st}"));
+                Ok(())
+            }
+            Expr::Return(r) if self.t5() => {
+                let inner = r.expr.as_deref().ok_or("return without a value")?;
+                // `return Err(e)` / `return error_helper(..)`: a failing action
+                if let Some(act) = self.err_action(inner)? {
+                    self.emit(act);
+                    return Ok(());
+                }
+                if self.nontail_sub > 0 {
+                    return Err("return inside a nested value block".into());
+                }
+                if !matches!(inner, Expr::Call(_) | Expr::MethodCall(_)) {
+                    return Err("return of something other than Ok(..), Err(..) or a call".into());
+                }
+                self.tail = true;
+                self.expect = self.ret_ty.clone();
+                let v = self.expr(inner)?;
+                if self.in_loop > 0 {
+                    self.emit(format!("return Rs.Step.ret {v}"));
+                } else if let (Mode::P, Some(p)) = (&self.mode, &self.pstate) {
+                    self.emit(format!("return ({v}, {p})"));
+                } else {
+                    self.emit(format!("return {v}"));
+                }
+                Ok(())
             }
             Expr::Return(r) if self.mode == Mode::W => {
                 // `return Err(e)` short-circuits through the monad; `return Ok(v)` is a `return`
@@ -1663,6 +2530,7 @@ impl<'a> Tr<'a> {
                     return Err("if let".into());
                 }
                 let c = self.expr(&i.cond)?;
+                let head = self.lines.len();
                 self.emit(format!("if {c} then"));
                 self.indent += 1;
                 let mark = self.lines.len();
@@ -1672,6 +2540,17 @@ impl<'a> Tr<'a> {
                     self.emit("pure ()".into());
                 }
                 self.indent -= 1;
+                // T5 modes: a guard `if c { return Err(e); }` is one action (the rest of the block is
+                // not duplicated into both branches by the do-elaborator)
+                if self.t5() && i.else_branch.is_none() && self.lines.len() == mark + 1 {
+                    let act = self.lines[mark].trim_start().to_string();
+                    if act.starts_with("Rs.R.err ") || act.starts_with("Rs.P.err ") || act.starts_with("Model.M.throw ") {
+                        self.lines.truncate(head);
+                        self.emit(format!("(if {c} then {act} else pure ())"));
+                        self.rest = outer_rest;
+                        return Ok(());
+                    }
+                }
                 if let Some((_, e)) = &i.else_branch {
                     self.emit("else".into());
                     self.indent += 1;
@@ -1722,9 +2601,262 @@ impl<'a> Tr<'a> {
         }
     }
 
+    /// Statement-level `match` (READ mode): arms are do-sequences, so assignments, `break` and
+    /// `return` inside them act on the enclosing block.  With `lhs`, it is `lhs = match … { … }`.
+    fn stmt_match(&mut self, lhs: Option<&Expr>, m: &ExprMatch) -> R<()> {
+        let arms: Vec<&Arm> = m.arms.iter().filter(|a| cfg_on(&a.attrs)).collect();
+        if arms.iter().any(|a| a.guard.is_some()) {
+            return Err("match guard".into());
+        }
+        let scrut_ty = self.type_of(&m.expr);
+        let lhs_ty = lhs.and_then(|l| self.type_of(l));
+        let scrut = self.expr(&m.expr)?;
+        if arms.iter().any(|a| matches!(a.pat, Pat::Lit(PatLit { lit: Lit::Int(_), .. }) | Pat::Range(_))) {
+            // integer patterns: an if / else chain, the last arm is the default (rustc checks exhaustiveness)
+            if lhs.is_some() {
+                return Err("assignment from a statement-level match on integers".into());
+            }
+            let base_indent = self.indent;
+            let n = arms.len();
+            let mut r: R<()> = Ok(());
+            for (k, a) in arms.iter().enumerate() {
+                let c = match self.pat_int_cond(&scrut, &a.pat) {
+                    Ok(c) => c,
+                    Err(e) => { r = Err(e); break; }
+                };
+                let bind = if let Pat::Ident(id) = &a.pat { Some(id.ident.to_string()) } else { None };
+                let last = k + 1 == n || c.is_none();
+                if !last {
+                    self.emit(format!("if {} then", c.unwrap()));
+                    self.indent += 1;
+                } else if let Some(nm) = &bind {
+                    self.emit(format!("let {nm} := {scrut}"));
+                    if let Some(t) = &scrut_ty { self.vars.insert(nm.clone(), t.clone()); }
+                }
+                let mark = self.lines.len();
+                let outer_rest = std::mem::take(&mut self.rest);
+                let rr: R<()> = match &*a.body {
+                    Expr::Block(b) => self.stmts(&b.block.stmts),
+                    other => self.stmt_expr(other),
+                };
+                self.rest = outer_rest;
+                if self.lines.len() == mark || self.lines.last().map(|l| l.trim_start().starts_with("let ")).unwrap_or(false) {
+                    self.emit("pure ()".into());
+                }
+                if let Err(e) = rr { r = Err(e); break; }
+                if last {
+                    break;
+                }
+                self.indent -= 1;
+                self.emit("else".into());
+                self.indent += 1;
+            }
+            self.indent = base_indent;
+            return r;
+        }
+        self.emit(format!("match {scrut} with"));
+        for a in &arms {
+            let p = self.pat_lean(&a.pat)?;
+            self.emit(format!("| {p} =>"));
+            self.indent += 1;
+            let saved_vars = self.vars.clone();
+            let saved_mut = self.mut_vars.clone();
+            let saved_untyped = self.untyped.clone();
+            self.bind_pat_vars(&a.pat, scrut_ty.as_deref());
+            let mark = self.lines.len();
+            let outer_rest = std::mem::take(&mut self.rest);
+            let r: R<()> = (|| {
+                if diverges(&a.body) {
+                    return self.stmt_expr(&a.body);
+                }
+                match lhs {
+                    Some(l) => {
+                        self.expect = lhs_ty.clone();
+                        let v = self.expr(&a.body)?;
+                        self.assign(l, v)
+                    }
+                    None => match &*a.body {
+                        Expr::Block(b) => self.stmts(&b.block.stmts),
+                        other => self.stmt_expr(other),
+                    },
+                }
+            })();
+            if self.lines.len() == mark || self.lines.last().map(|l| l.trim_start().starts_with("let ")).unwrap_or(false) {
+                self.emit("pure ()".into());
+            }
+            self.rest = outer_rest;
+            self.vars = saved_vars;
+            self.mut_vars = saved_mut;
+            self.untyped = saved_untyped;
+            self.indent -= 1;
+            r?;
+        }
+        Ok(())
+    }
+
+    /// READ mode: `while a <cmp> b { body }` → `Rs.R.whileLoop` over the loop-carried variables; the
+    /// body may `break` and `return`.  Fuel: the distance between the two compared variables + 2
+    /// (one of them has to move towards the other by at least 1 per iteration: the Tie proof shows it).
+    fn while_loop_r(&mut self, w: &ExprWhile) -> R<()> {
+        if w.label.is_some() {
+            return Err("labelled loop".into());
+        }
+        if self.in_loop > 0 {
+            return Err("nested loop".into());
+        }
+        if self.nontail_sub > 0 {
+            return Err("loop inside a nested value block".into());
+        }
+        // fuel: both sides of the comparison, evaluated before the loop, must be effect-free unsigned values
+        let fuel = match &*w.cond {
+            Expr::Binary(b) if matches!(b.op, BinOp::Ge(_) | BinOp::Gt(_) | BinOp::Le(_) | BinOp::Lt(_)) => {
+                let ok = |t: Option<String>| t.map(|t| t == "UInt64" || t == "UInt32" || t == "UInt16").unwrap_or(false);
+                if ok(self.type_of(&b.left)) && ok(self.type_of(&b.right)) {
+                    let mark = self.lines.len();
+                    let l = self.expr(&b.left)?;
+                    let r = self.expr(&b.right)?;
+                    if self.lines.len() != mark {
+                        self.lines.truncate(mark);
+                        None
+                    } else {
+                        match b.op {
+                            BinOp::Ge(_) | BinOp::Gt(_) => Some(format!("({l}.toNat - {r}.toNat + 2)")),
+                            _ => Some(format!("({r}.toNat - {l}.toNat + 2)")),
+                        }
+                    }
+                } else {
+                    None
+                }
+            }
+            _ => None,
+        };
+        let fuel = fuel.ok_or("while loop without a known fuel bound")?;
+        let pmode = self.mode == Mode::P;
+        let pstate = self.pstate.clone().unwrap_or_default();
+        let monad = if pmode { format!("Rs.P {}", self.vars.get(&pstate).cloned().unwrap_or_default()) } else { "Model.M".to_string() };
+        let mut av = AssignedVars { reg: self.reg, out: vec![], declared: vec![] };
+        syn::visit::Visit::visit_block(&mut av, &w.body);
+        let mut state: Vec<String> = vec![];
+        for v in &av.out {
+            if Some(v) == self.reader.as_ref() {
+                continue;
+            }
+            if av.declared.contains(v) {
+                if self.vars.contains_key(v) || self.untyped.contains(v) {
+                    return Err(format!("loop body both declares and assigns `{v}`"));
+                }
+                // a local of the body
+                continue;
+            }
+            if !self.mut_vars.contains(v) {
+                return Err(format!("assignment to `{v}`, which is not a local `mut` variable"));
+            }
+            if !state.contains(v) {
+                state.push(v.clone());
+            }
+        }
+        if state.is_empty() {
+            return Err("while loop without loop-carried variables".into());
+        }
+        let mut uses = UsedIdents { out: vec![] };
+        syn::visit::Visit::visit_expr(&mut uses, &w.cond);
+        syn::visit::Visit::visit_block(&mut uses, &w.body);
+        let mut free: Vec<(String, String)> = vec![];
+        for u in &uses.out {
+            if state.contains(u) || av.declared.contains(u) || free.iter().any(|(n, _)| n == u) {
+                continue;
+            }
+            if self.untyped.contains(u) {
+                return Err(format!("loop uses `{u}`, whose type is not known"));
+            }
+            if Some(u) == self.reader.as_ref() {
+                continue;
+            }
+            if let Some(t) = self.vars.get(u) {
+                free.push((u.clone(), t.clone()));
+            }
+        }
+        let mut state_tys = vec![];
+        for v in &state {
+            state_tys.push(self.vars.get(v).cloned().ok_or(format!("loop-carried `{v}` of unknown type"))?);
+        }
+        let st = if state.len() == 1 { state[0].clone() } else { format!("({})", state.join(", ")) };
+        let st_ty = if state.len() == 1 { state_tys[0].clone() } else { format!("({})", state_tys.join(" × ")) };
+        let ret = self.ret_ty.clone().ok_or("loop in a function without a result type")?;
+        self.n_loops += 1;
+        let base = format!("{}.loop{}", self.lean_name, self.n_loops);
+        let fparams: String = free.iter().map(|(n, t)| format!(" ({n} : {t})")).collect();
+        let fargs: String = free.iter().map(|(n, _)| format!(" {n}")).collect();
+        let sparam = format!(" (st : {st_ty})");
+        let destruct = if state.len() == 1 { format!("let {} := st", state[0]) } else { format!("let ({}) := st", state.join(", ")) };
+        let saved_lines = std::mem::take(&mut self.lines);
+        let saved_indent = self.indent;
+        let saved_vars = self.vars.clone();
+        let saved_mut = self.mut_vars.clone();
+        let saved_untyped = self.untyped.clone();
+        let outer_rest = std::mem::take(&mut self.rest);
+        self.indent = 1;
+        self.in_loop += 1;
+        self.loop_state = Some(st.clone());
+        let r: R<(Vec<String>, Vec<String>)> = (|| {
+            self.emit(destruct.clone());
+            let c = self.expr(&w.cond)?;
+            self.emit(format!("pure {c}"));
+            let cond_lines = std::mem::take(&mut self.lines);
+            self.emit(destruct.clone());
+            for v in &state {
+                self.emit(format!("let mut {v} := {v}"));
+            }
+            self.stmts(&w.body.stmts)?;
+            self.emit(format!("pure (Rs.Step.next {st})"));
+            let body_lines = std::mem::take(&mut self.lines);
+            Ok((cond_lines, body_lines))
+        })();
+        self.in_loop -= 1;
+        self.loop_state = None;
+        self.lines = saved_lines;
+        self.indent = saved_indent;
+        self.vars = saved_vars;
+        self.mut_vars = saved_mut;
+        self.untyped = saved_untyped;
+        self.rest = outer_rest;
+        let (cond_lines, body_lines) = r?;
+        self.aux.push(format!("def {base}_cond{fparams}{sparam} : {monad} Bool := do\n{}\n", cond_lines.join("\n")));
+        self.aux.push(format!("def {base}_body{fparams}{sparam} : {monad} (Rs.Step {st_ty} {ret}) := do\n{}\n", body_lines.join("\n")));
+        let t = self.fresh();
+        if pmode {
+            if !state.contains(&pstate) {
+                return Err("loop that does not carry the `&mut` parameter".into());
+            }
+            let proj = if state.len() == 1 { "(fun st => st)".to_string() } else { format!("(fun st => let ({}) := st; {pstate})", state.join(", ")) };
+            self.emit(format!("let {t} ← Rs.P.whileLoop {proj} ({base}_cond{fargs}) ({base}_body{fargs}) {fuel} {st}"));
+            self.emit(format!("match {t} with"));
+            self.emit(format!("| Rs.LoopEnd.ret r => return (r, {pstate})"));
+        } else {
+            self.emit(format!("let {t} ← Rs.R.whileLoop ({base}_cond{fargs}) ({base}_body{fargs}) {fuel} {st}"));
+            self.emit(format!("match {t} with"));
+            self.emit("| Rs.LoopEnd.ret r => return r".into());
+        }
+        if state.len() == 1 {
+            self.emit(format!("| Rs.LoopEnd.done s => {} := s", state[0]));
+        } else {
+            let ts: Vec<String> = state.iter().map(|_| self.fresh()).collect();
+            self.emit(format!("| Rs.LoopEnd.done ({}) =>", ts.join(", ")));
+            self.indent += 1;
+            for (v, t) in state.iter().zip(ts.iter()) {
+                self.emit(format!("{v} := {t}"));
+            }
+            self.indent -= 1;
+        }
+        Ok(())
+    }
+
     /// `while cond { body }` in a W-mode function → `Rs.W.whileLoop` over the loop-carried variables.
     /// Fuel heuristic: `while !x.is_empty()` over a byte-slice variable gets `x.length + 1`.
     fn while_loop(&mut self, w: &ExprWhile) -> R<()> {
+        if self.t5() {
+            return self.while_loop_r(w);
+        }
         if self.mode != Mode::W {
             return Err("while loop outside a ZipResult function".into());
         }
@@ -1846,6 +2978,11 @@ impl<'a> Tr<'a> {
                         self.emit(format!("self := {{ self with {n} := {v} }}"));
                         return Ok(());
                     }
+                    let b = path_last(&p.path);
+                    if self.t5() && p.path.segments.len() == 1 && self.mut_vars.contains(&b) && self.vars.get(&b).map(|t| t.starts_with("Gen.")).unwrap_or(false) {
+                        self.emit(format!("{b} := {{ {b} with {n} := {v} }}"));
+                        return Ok(());
+                    }
                 }
                 Err("assignment to a nested place".into())
             }
@@ -1857,6 +2994,32 @@ impl<'a> Tr<'a> {
     fn wrap_ret(&self, v: String) -> String {
         v
     }
+}
+
+/// Components of a Lean product type `(A × B × C)` (top level only).
+fn split_prod(t: &str) -> Vec<String> {
+    let inner = match t.strip_prefix('(').and_then(|x| x.strip_suffix(')')) {
+        Some(i) => i,
+        None => return vec![t.to_string()],
+    };
+    let mut parts = vec![];
+    let mut depth = 0;
+    let mut cur = String::new();
+    for ch in inner.chars() {
+        match ch {
+            '(' => { depth += 1; cur.push(ch); }
+            ')' => { depth -= 1; cur.push(ch); }
+            '×' if depth == 0 => { parts.push(cur.trim().to_string()); cur = String::new(); }
+            _ => cur.push(ch),
+        }
+    }
+    parts.push(cur.trim().to_string());
+    parts
+}
+
+/// `break` / `return` / `continue` as a match-arm body
+fn diverges(e: &Expr) -> bool {
+    matches!(e, Expr::Break(_) | Expr::Return(_) | Expr::Continue(_))
 }
 
 fn is_assign_op(op: &BinOp) -> bool {
@@ -1881,11 +3044,26 @@ struct FileOut {
 }
 
 /// Mode, writer parameter and value type of a function, from its signature.
-fn sig_info(tr: &Tr, sig: &Signature) -> R<(FnInfo, Option<String>)> {
+fn sig_info(tr: &Tr, sig: &Signature, impl_generics: Option<&Generics>) -> R<(FnInfo, Option<String>)> {
     let mut tparam: Option<String> = None;
     let mut seek = false;
+    let mut read = false;
     let mut n_generics = 0;
-    for g in &sig.generics.params {
+    // a type parameter of the enclosing `impl<R: Read + Seek> …` counts when a parameter is `&mut R`
+    let mut own: Vec<&GenericParam> = sig.generics.params.iter().collect();
+    if let Some(ig) = impl_generics {
+        if sig.generics.params.is_empty() && ig.where_clause.is_none() {
+            for g in &ig.params {
+                if let GenericParam::Type(tp) = g {
+                    let used = sig.inputs.iter().any(|a| matches!(a, FnArg::Typed(t) if matches!(&*t.ty, Type::Reference(r) if r.mutability.is_some() && matches!(&*r.elem, Type::Path(p) if p.path.is_ident(&tp.ident)))));
+                    if used {
+                        own.push(g);
+                    }
+                }
+            }
+        }
+    }
+    for g in own {
         n_generics += 1;
         match g {
             GenericParam::Type(tp) => {
@@ -1895,12 +3073,13 @@ fn sig_info(tr: &Tr, sig: &Signature) -> R<(FnInfo, Option<String>)> {
                         TypeParamBound::Trait(tb) => match path_last(&tb.path).as_str() {
                             "Write" => write = true,
                             "Seek" => seek = true,
+                            "Read" => read = true,
                             other => return Err(format!("generic bound {other}")),
                         },
                         _ => return Err("generic bound".into()),
                     }
                 }
-                if !write {
+                if write == read {
                     return Err("generic function".into());
                 }
                 tparam = Some(tp.ident.to_string());
@@ -1949,8 +3128,32 @@ fn sig_info(tr: &Tr, sig: &Signature) -> R<(FnInfo, Option<String>)> {
         },
         _ => None,
     };
+    // `x: &mut Struct` (a translated structure) in a plain ZipResult function → P mode
+    if zr.is_some() && tparam.is_none() {
+        let mut found: Option<(usize, String)> = None;
+        let mut k = 0;
+        for a in &sig.inputs {
+            if let FnArg::Typed(t) = a {
+                if let Type::Reference(r) = &*t.ty {
+                    if r.mutability.is_some() {
+                        let is_struct = matches!(&*r.elem, Type::Path(p) if tr.reg.structs.contains(&path_last(&p.path)));
+                        if !is_struct || found.is_some() {
+                            return Err("`&mut` parameter".into());
+                        }
+                        if let Pat::Ident(id) = &*t.pat {
+                            found = Some((k, id.ident.to_string()));
+                        }
+                    }
+                }
+                k += 1;
+            }
+        }
+        if let Some((idx, name)) = found {
+            return Ok((FnInfo { mode: Mode::P, writer_idx: Some(idx), seek: false, ret: Some(tr.ty(zr.unwrap())?) }, Some(name)));
+        }
+    }
     match zr {
-        Some(t) => Ok((FnInfo { mode: Mode::W, writer_idx, seek, ret: Some(tr.ty(t)?) }, writer_name)),
+        Some(t) => Ok((FnInfo { mode: if read { Mode::R } else { Mode::W }, writer_idx, seek, ret: Some(tr.ty(t)?) }, writer_name)),
         None => {
             if writer_name.is_some() {
                 return Err("writer function that does not return ZipResult".into());
@@ -1964,11 +3167,15 @@ fn sig_info(tr: &Tr, sig: &Signature) -> R<(FnInfo, Option<String>)> {
     }
 }
 
-fn translate_fn(reg: &Registry, failed: &HashSet<String>, self_ty: Option<&str>, sig: &Signature, block: &Block, lean_name: &str) -> R<String> {
+fn translate_fn(reg: &Registry, failed: &HashSet<String>, self_ty: Option<&str>, sig: &Signature, block: &Block, lean_name: &str, impl_generics: Option<&Generics>) -> R<String> {
     let mut tr = Tr::new(reg, failed, self_ty.map(|s| s.to_string()), 1);
-    let (fi, writer_name) = sig_info(&tr, sig)?;
+    let (fi, writer_name) = sig_info(&tr, sig, impl_generics)?;
     tr.mode = fi.mode.clone();
-    tr.writer = writer_name;
+    match fi.mode {
+        Mode::R => tr.reader = writer_name,
+        Mode::P => tr.pstate = writer_name,
+        _ => tr.writer = writer_name,
+    }
     tr.seekable = fi.seek;
     tr.lean_name = lean_name.to_string();
     {
@@ -1978,6 +3185,9 @@ fn translate_fn(reg: &Registry, failed: &HashSet<String>, self_ty: Option<&str>,
         }
         if fi.seek {
             binders += " [Rs.SeekSink ω]";
+        }
+        if matches!(fi.mode, Mode::R | Mode::P) {
+            binders = String::new();
         }
         tr.binders = binders;
     }
@@ -1999,7 +3209,7 @@ fn translate_fn(reg: &Registry, failed: &HashSet<String>, self_ty: Option<&str>,
                     Pat::Ident(id) => id.ident.to_string(),
                     _ => return Err("parameter pattern".into()),
                 };
-                if Some(k) == fi.writer_idx {
+                if Some(k) == fi.writer_idx && fi.mode != Mode::P {
                     k += 1;
                     continue;
                 }
@@ -2011,18 +3221,29 @@ fn translate_fn(reg: &Registry, failed: &HashSet<String>, self_ty: Option<&str>,
         }
     }
     let _ = has_self;
-    if fi.mode == Mode::W {
+    if fi.mode != Mode::Pure {
         if mut_self {
             return Err("`&mut self` method returning ZipResult".into());
+        }
+        if fi.mode == Mode::R && has_self {
+            return Err("READ-mode method with a self parameter".into());
         }
         let ret = fi.ret.clone().unwrap();
         tr.ret_ty = Some(ret.clone());
         tr.hint = Some(ret.clone());
         tr.expect = Some(ret.clone());
         tr.tail = true;
+        if let (Mode::P, Some(p)) = (&fi.mode, tr.pstate.clone()) {
+            tr.emit(format!("let mut {p} := {p}"));
+            tr.mut_vars.insert(p);
+        }
         let v = tr.block_value(block)?;
         tr.hint = None;
-        tr.emit(format!("pure {v}"));
+        if let (Mode::P, Some(p)) = (&fi.mode, tr.pstate.clone()) {
+            tr.emit(format!("pure ({v}, {p})"));
+        } else {
+            tr.emit(format!("pure {v}"));
+        }
         let binders = tr.binders.clone();
         let mut s = String::new();
         for a in &tr.aux {
@@ -2030,7 +3251,14 @@ fn translate_fn(reg: &Registry, failed: &HashSet<String>, self_ty: Option<&str>,
             s.push('\n');
         }
         let ps = if params.is_empty() { String::new() } else { format!(" {}", params.join(" ")) };
-        writeln!(s, "def {lean_name} {binders}{ps} : Rs.W ω {ret} := do").unwrap();
+        if fi.mode == Mode::R {
+            writeln!(s, "def {lean_name}{ps} : Model.M {ret} := do").unwrap();
+        } else if fi.mode == Mode::P {
+            let st_ty = tr.pstate.as_ref().and_then(|p| tr.vars.get(p)).cloned().unwrap_or_default();
+            writeln!(s, "def {lean_name}{ps} : Rs.P {st_ty} ({ret} × {st_ty}) := do").unwrap();
+        } else {
+            writeln!(s, "def {lean_name} {binders}{ps} : Rs.W ω {ret} := do").unwrap();
+        }
         for l in tr.lines {
             writeln!(s, "{l}").unwrap();
         }
@@ -2067,12 +3295,52 @@ fn translate_fn(reg: &Registry, failed: &HashSet<String>, self_ty: Option<&str>,
     Ok(s)
 }
 
+/// An error helper `fn f<T>(detail: &'static str) -> ZipResult<T> { Err(ZipError::V(detail)) }`: the variant `V`.
+fn errfn_variant(f: &ItemFn) -> R<String> {
+    if f.sig.inputs.len() != 1 || f.block.stmts.len() != 1 {
+        return Err("error helper of an unsupported shape".into());
+    }
+    let param = match &f.sig.inputs[0] {
+        FnArg::Typed(t) => match &*t.pat {
+            Pat::Ident(id) => id.ident.to_string(),
+            _ => return Err("error helper parameter".into()),
+        },
+        _ => return Err("error helper parameter".into()),
+    };
+    let zr = matches!(&f.sig.output, ReturnType::Type(_, t) if matches!(&**t, Type::Path(p) if path_last(&p.path) == "ZipResult"));
+    if !zr {
+        return Err("error helper that does not return ZipResult".into());
+    }
+    if let Stmt::Expr(Expr::Call(c), None) = &f.block.stmts[0] {
+        if let Expr::Path(p) = &*c.func {
+            if p.path.is_ident("Err") && c.args.len() == 1 {
+                if let Expr::Call(ic) = &c.args[0] {
+                    if let Expr::Path(ip) = &*ic.func {
+                        let segs: Vec<String> = ip.path.segments.iter().map(|s| s.ident.to_string()).collect();
+                        if segs.len() == 2 && segs[0] == "ZipError" && ic.args.len() == 1 && path_ident(&ic.args[0]).as_deref() == Some(&param) && matches!(&ic.args[0], Expr::Path(_)) {
+                            if ["InvalidArchive", "UnsupportedArchive"].contains(&segs[1].as_str()) {
+                                return Ok(segs[1].clone());
+                            }
+                        }
+                    }
+                }
+            }
+        }
+    }
+    Err("error helper of an unsupported shape".into())
+}
+
 fn const_expr(reg: &Registry, e: &Expr) -> R<String> {
+    const_expr_l(reg, &HashSet::new(), e)
+}
+
+/// `locals`: constants declared earlier in the same function body
+fn const_expr_l(reg: &Registry, locals: &HashSet<String>, e: &Expr) -> R<String> {
     // constant expressions: literals, casts of MAX constants, other consts, arithmetic on them
     match e {
         Expr::Lit(ExprLit { lit: Lit::Int(i), .. }) => Ok(lit_str(i).0),
-        Expr::Cast(c) => const_expr(reg, &c.expr),
-        Expr::Paren(p) => const_expr(reg, &p.expr),
+        Expr::Cast(c) => const_expr_l(reg, locals, &c.expr),
+        Expr::Paren(p) => const_expr_l(reg, locals, &p.expr),
         Expr::Path(p) => {
             let s = quote::quote!(#p).to_string().replace(' ', "");
             match s.as_str() {
@@ -2081,13 +3349,15 @@ fn const_expr(reg: &Registry, e: &Expr) -> R<String> {
                 "u64::MAX" => Ok("18446744073709551615".into()),
                 _ => {
                     let n = path_last(&p.path);
-                    if reg.consts.contains(&n) { Ok(format!("Gen.{n}")) } else { Err(format!("constant path {s}")) }
+                    if p.path.segments.len() == 1 && locals.contains(&n) {
+                        Ok(n)
+                    } else if reg.consts.contains(&n) { Ok(format!("Gen.{n}")) } else { Err(format!("constant path {s}")) }
                 }
             }
         }
         Expr::Binary(b) => {
-            let l = const_expr(reg, &b.left)?;
-            let r = const_expr(reg, &b.right)?;
+            let l = const_expr_l(reg, locals, &b.left)?;
+            let r = const_expr_l(reg, locals, &b.right)?;
             let op = match b.op {
                 BinOp::Add(_) => "+",
                 BinOp::Sub(_) => "-",
@@ -2162,6 +3432,18 @@ fn main() {
                     }
                 }
                 "struct" => { reg.structs.insert(name.clone()); }
+                "aconst" => { reg.aconsts.insert(name.clone(), ()); }
+                "errfn" => {
+                    for it in &all {
+                        if let Item::Fn(f) = it {
+                            if f.sig.ident == name && cfg_on(&f.attrs) {
+                                if let Ok(v) = errfn_variant(f) {
+                                    reg.errfns.insert(name.clone(), v);
+                                }
+                            }
+                        }
+                    }
+                }
                 _ => {}
             }
         }
@@ -2219,7 +3501,7 @@ fn main() {
                                                         let recv = f.sig.inputs.iter().find_map(|a| if let FnArg::Receiver(r) = a { Some(r) } else { None });
                                                         let fi = {
                                                             let tr = Tr::new(&reg, &no_failed, Some(ty.to_string()), 0);
-                                                            sig_info(&tr, &f.sig).map(|x| x.0).unwrap_or(FnInfo { mode: Mode::Pure, writer_idx: None, seek: false, ret: None })
+                                                            sig_info(&tr, &f.sig, Some(&im.generics)).map(|x| x.0).unwrap_or(FnInfo { mode: Mode::Pure, writer_idx: None, seek: false, ret: None })
                                                         };
                                                         reg.methods.insert(name.clone(), MethodInfo {
                                                             has_self: recv.is_some(),
@@ -2241,7 +3523,7 @@ fn main() {
                             if let Item::Fn(f) = it {
                                 if f.sig.ident == name && cfg_on(&f.attrs) {
                                     let tr = Tr::new(&reg, &no_failed, None, 0);
-                                    if let Ok((x, _)) = sig_info(&tr, &f.sig) {
+                                    if let Ok((x, _)) = sig_info(&tr, &f.sig, None) {
                                         fi = x;
                                     }
                                 }
@@ -2375,7 +3657,7 @@ fn main() {
                                         for ii in &im.items {
                                             if let ImplItem::Fn(f) = ii {
                                                 if f.sig.ident == m && cfg_on(&f.attrs) {
-                                                    let s = translate_fn(&reg, &failed, Some(ty), &f.sig, &f.block, &format!("Gen.{ty}.{m}"))?;
+                                                    let s = translate_fn(&reg, &failed, Some(ty), &f.sig, &f.block, &format!("Gen.{ty}.{m}"), Some(&im.generics))?;
                                                     let h = tokens_hash(&quote::quote!(#f));
                                                     return Ok((s, h, f.span().start().line, f.span().end().line));
                                                 }
@@ -2389,7 +3671,7 @@ fn main() {
                             for it in &all {
                                 if let Item::Fn(f) = it {
                                     if f.sig.ident == name && cfg_on(&f.attrs) {
-                                        let s = translate_fn(&reg, &failed, None, &f.sig, &f.block, &format!("Gen.{name}"))?;
+                                        let s = translate_fn(&reg, &failed, None, &f.sig, &f.block, &format!("Gen.{name}"), None)?;
                                         let h = tokens_hash(&quote::quote!(#f));
                                         return Ok((s, h, f.span().start().line, f.span().end().line));
                                     }
@@ -2397,6 +3679,44 @@ fn main() {
                             }
                             Err("not found".into())
                         }
+                    }
+                    "aconst" => {
+                        let (ty, cn) = name.split_once("::").ok_or("aconst needs Type::NAME")?;
+                        for it in &all {
+                            if let Item::Impl(im) = it {
+                                if im.trait_.is_some() || !cfg_on(&im.attrs) { continue; }
+                                if let Type::Path(p) = &*im.self_ty {
+                                    if path_last(&p.path) != ty { continue; }
+                                    for ii in &im.items {
+                                        if let ImplItem::Const(c) = ii {
+                                            if c.ident == cn && cfg_on(&c.attrs) {
+                                                let mut tr = Tr::new(&reg, &failed, Some(ty.to_string()), 0);
+                                                let t = tr.ty(&c.ty)?;
+                                                let v = tr.expr(&c.expr)?;
+                                                if !tr.lines.is_empty() {
+                                                    return Err("associated constant with a computed value".into());
+                                                }
+                                                let h = tokens_hash(&quote::quote!(#c));
+                                                return Ok((format!("def Gen.{ty}.{cn} : {t} := {v}\n"), h, c.span().start().line, c.span().end().line));
+                                            }
+                                        }
+                                    }
+                                }
+                            }
+                        }
+                        Err("not found".into())
+                    }
+                    "errfn" => {
+                        for it in &all {
+                            if let Item::Fn(f) = it {
+                                if f.sig.ident == name && cfg_on(&f.attrs) {
+                                    let v = errfn_variant(f)?;
+                                    let h = tokens_hash(&quote::quote!(#f));
+                                    return Ok((format!("def Gen.{name} : Rs.ZipErr := Rs.ZipErr.{v}\n"), h, f.span().start().line, f.span().end().line));
+                                }
+                            }
+                        }
+                        Err("not found".into())
                     }
                     k => Err(format!("unknown item kind {k}")),
                 }
@@ -2417,6 +3737,9 @@ fn main() {
         }
         let mut text = String::new();
         writeln!(text, "import ZipVerif.Basic.Rs").unwrap();
+        if fo.body.contains("Rs.R.") || fo.body.contains("Model.M") {
+            writeln!(text, "import ZipVerif.Basic.RsM").unwrap();
+        }
         for i in &fo.imports { writeln!(text, "import ZipVerif.Gen.{i}").unwrap(); }
         writeln!(text, "/- GENERATED by rs2lean from /repo/src/{} on every check run. Do not edit. -/", f.rs).unwrap();
         writeln!(text, "set_option linter.unusedVariables false\nnamespace ZipVerif\n").unwrap();
